@@ -1,12 +1,14 @@
 import Driver.Proto
 import Driver.SorterCmd
 import Driver.EngineCmd
+import Driver.CaptureCmd
 /-! `driver`: one request per line on stdin, one answer per line on stdout. -/
 namespace Driver
 
 structure St where
   sorter : SorterSt := {}
   engine : EngineSt := {}
+  capture : CaptureSt := {}
 
 def step (st : St) (line : String) : St × String :=
   let (cmd, args) := parseLine line
@@ -16,6 +18,9 @@ def step (st : St) (line : String) : St × String :=
   else if cmd.startsWith "engine." then
     let (s, out) := engineHandle st.engine cmd args
     ({ st with engine := s }, out)
+  else if cmd.startsWith "capture." then
+    let (s, out) := captureHandle st.capture cmd args
+    ({ st with capture := s }, out)
   else if cmd == "ping" then (st, "pong")
   else (st, "bad-op")
 
